@@ -921,9 +921,14 @@ def check(run, mods, wd, rnd) -> dict:
     for f in kf:
         if f.kind == "finding" and f.id.startswith("F02comp") and f.id not in reproduced:
             common.log(f"note: known finding {f.id} no longer reproduces")
+    reg_fails = check_regressions(mods)
     timings["oracle_s"] = round(time.time() - t0, 1)
 
     # ---- verdicts
+    for c in reg_fails[:4]:
+        run.violation({"tranche": "comp", "kind": "property-oracle", **c,
+                       "explanation": "a program that was a failing input before a repair of this rule prints something else "
+                                      "after the rewrite again"}, True)
     shown = Counter()
     for c in failures:
         shown[c["rule"]] += 1
@@ -986,8 +991,68 @@ def check(run, mods, wd, rnd) -> dict:
         "histogram": dict(hist), "rule_cases": len(cases), "semantic_cases": len(sem), "semantic_gaps": sem_gap,
         "semantic_outside_domain": n_outside, "semantic_mismatches": len(sem_bad),
         "correspondence_disagreements": len(disagreements), "oracle_cases": n_oracle, "oracle_failures": len(failures),
-        "implementation_problems": len(problems), "timings_cumulative": timings,
+        "implementation_problems": len(problems), "regression_programs": len(REGRESSIONS),
+        "regression_failures": len(reg_fails), "timings_cumulative": timings,
     }
+
+
+# (rule function, source): inputs of repaired defects that are outside the fragment of the model (class bodies, yield, :=, async,
+# rebound builtins, lazily consumed generators): the real rule runs on the text, before / after are executed by CPython and
+# must print the same
+REGRESSIONS: list = [
+    # a54118b: loops in class bodies
+    ("replace_for_loops_with_set_list_comp", "class A:\n    k = 2\n    res = []\n    for x in range(3):\n        res.append(x * k)\nprint(A.res, A.x)\n"),
+    ("replace_for_loops_with_dict_comp", "class A:\n    k = 2\n    res = {}\n    for x in range(3):\n        res[x] = x * k\nprint(A.res, A.x)\n"),
+    ("replace_listcomp_append_with_plus", "class A:\n    k = 2\n    res = [0]\n    for x in range(3):\n        res.append(x * k)\nprint(A.res)\n"),
+    ("replace_setcomp_add_with_union", "class A:\n    k = 2\n    res = {0}\n    for x in range(3):\n        res.add(x * k)\nprint(sorted(A.res))\n"),
+    ("replace_nested_loops_with_set_list_comp", "class A:\n    k = [1, 2]\n    res = []\n    for x in range(2):\n        for y in k:\n            res.append(x * y)\nprint(A.res)\n"),
+    # fa920d7: yield and := cannot move into a comprehension
+    ("replace_for_loops_with_set_list_comp", "def g(y):\n    result = []\n    for x in y:\n        result.append((yield x))\n    return result\nprint(list(g([1, 2])))\n"),
+    ("replace_for_loops_with_set_list_comp", "def g(y):\n    result = []\n    for x in y:\n        if (x := x + 1):\n            result.append(x)\n    return result\nprint(g([1, -1, 2]))\n"),
+    # 4d244a8: async for
+    ("replace_nested_loops_with_set_list_comp", "import asyncio\nasync def agen():\n    yield [1, 2]\n    yield [3]\nasync def main():\n    res = []\n    async for x in agen():\n        res.extend(x)\n    print(res)\nasyncio.run(main())\n"),
+    # 05d63ff: := inside the lambda
+    ("replace_map_lambda_with_comp", "y = 0\nprint(list(map(lambda x: (y := x), [1, 2])))\nprint(y)\n"),
+    ("replace_filter_lambda_with_comp", "y = 0\nprint(list(filter(lambda x: (y := x), [1, 2])))\nprint(y)\n"),
+    # 7de4ae7: the builtin name is rebound
+    ("remove_redundant_comprehensions", "def f(xs):\n    list = [x for x in xs]\n    return list\nprint(f((1, 2)))\n"),
+    # f6bcd55: eager comprehension inside a lazy generator
+    ("merge_nested_comprehensions", "a = [1, 2, 3]\ng = (x * 2 for x in [y for y in a if y])\na.append(4)\nprint(list(g))\n"),
+    # 6bdbcbc (own repair, kept as a text-level program too): variable capture
+    ("merge_nested_comprehensions", "a = [[1, 2], [3]]\nz = 9\nprint([(x, z) for x in [y for z in a for y in z]])\n"),
+]
+
+
+def run_text(src: str) -> str:
+    import contextlib
+    import io
+    out = io.StringIO()
+    try:
+        with contextlib.redirect_stdout(out), contextlib.redirect_stderr(io.StringIO()):
+            exec(compile(src, "<r>", "exec"), {"__name__": "r"})
+    except BaseException as e:  # noqa
+        return out.getvalue() + f"<raised {type(e).__name__}>"
+    return out.getvalue()
+
+
+def check_regressions(mods):
+    fails = []
+    for fname, src in REGRESSIONS:
+        mods["core"].parse.cache_clear()
+        try:
+            with common.quiet():
+                new = getattr(mods["fixes"], fname)(src)
+        except Exception as e:  # noqa
+            new = None
+            after = f"<the rule raised {type(e).__name__}: {e}>"
+        mods["core"].parse.cache_clear()
+        before = run_text(src)
+        if new is not None:
+            after = run_text(new)
+        if before != after:
+            fails.append({"site": "fixes." + fname, "source": src, "output": new,
+                          "diff": {"stdout_before": before, "stdout_after": after}})
+    return fails
 
 
 # (finding id, rule id, source): fixed witness programs, re-run on every check
@@ -1022,6 +1087,13 @@ ASSUMPTIONS = [
 
 def replay(mods, data) -> int:
     src, rid = data.get("source"), data.get("rule")
+    if src and rid is None and str(data.get("site", "")).startswith("fixes."):
+        # a regression program (text level)
+        with common.quiet():
+            out = getattr(mods["fixes"], data["site"].split(".", 1)[1])(src)
+        before, after = run_text(src), run_text(out)
+        print("input:\n" + src + "output now:\n" + out + f"stdout before: {before!r}\nstdout after:  {after!r}")
+        return 1 if before != after else 0
     if not src or rid not in RULES:
         print(json.dumps({k: v for k, v in data.items() if k in ("kind", "explanation", "site")}, indent=1))
         return 0
